@@ -132,7 +132,7 @@ func wsParseWire(b []byte) (frames []wireFrame, rest []byte) {
 	}
 }
 
-func hx(b []byte) string {
+func wsHx(b []byte) string {
 	if len(b) == 0 {
 		return "-"
 	}
@@ -226,7 +226,7 @@ func wsFrameStr(f websocket.Frame) string {
 	if f.IsRSV3() {
 		rsv |= 1
 	}
-	return fmt.Sprintf("%d:%d:%d:%d:%s", b01(f.IsFIN()), rsv, int(f.Opcode()), b01(f.IsMasked()), hx(f.Payload()))
+	return fmt.Sprintf("%d:%d:%d:%d:%s", b01(f.IsFIN()), rsv, int(f.Opcode()), b01(f.IsMasked()), wsHx(f.Payload()))
 }
 
 // ---- executing a script -------------------------------------------------------------------------
@@ -258,7 +258,7 @@ func wsRun(script []string, w *bufio.Writer) {
 			if f.rsv != 0 {
 				garbage = true
 			}
-			parts = append(parts, fmt.Sprintf("%d:%d:%d:%s", b01(f.fin), f.op, b01(f.masked), hx(f.payload)))
+			parts = append(parts, fmt.Sprintf("%d:%d:%d:%s", b01(f.fin), f.op, b01(f.masked), wsHx(f.payload)))
 		}
 		ws_ := "-"
 		if len(parts) > 0 {
@@ -302,7 +302,7 @@ func wsRun(script []string, w *bufio.Writer) {
 				}
 				ws.SetMaxMessageSize(atoi(f[1]))
 				ws.SetControlCallback(func(mt websocket.MessageType, payload []byte) {
-					ctl = append(ctl, fmt.Sprintf("%d:%s", int(mt), hx(payload)))
+					ctl = append(ctl, fmt.Sprintf("%d:%s", int(mt), wsHx(payload)))
 				})
 				out = "ok " + post()
 			case "peer":
@@ -369,7 +369,7 @@ func wsRun(script []string, w *bufio.Writer) {
 				if len(ctl) > 0 {
 					c = strings.Join(ctl, ",")
 				}
-				out = fmt.Sprintf("msg err=%s type=%d n=%d data=%s tail=%s ctl=%s %s", wsErr(err), int(mt), n, hx(b[:n]), tail, c, post())
+				out = fmt.Sprintf("msg err=%s type=%d n=%d data=%s tail=%s ctl=%s %s", wsErr(err), int(mt), n, wsHx(b[:n]), tail, c, post())
 			case "write":
 				var err error
 				done := true
